@@ -11,8 +11,8 @@ import (
 
 func init() {
 	oracles["C10"] = &oracle{
-		rule: "byte strings: lexeme-fragment concatenations, generated programs in random layouts, random and mutated bytes (NUL, CR/LF mixes, non-UTF-8, truncated literals); non-trivial = at least 2 tokens before EOF; distinct by (input, token-type sequence)",
-		gen:  genLex,
+		rule:  "byte strings: lexeme-fragment concatenations, generated programs in random layouts, random and mutated bytes (NUL, CR/LF mixes, non-UTF-8, truncated literals); non-trivial = at least 2 tokens before EOF; distinct by (input, token-type sequence)",
+		gen:   genLex,
 		check: checkC10,
 	}
 }
